@@ -125,7 +125,8 @@ class CheckContext:
         r.fn = fn
         # `[] |- False` is not a verification condition of the code: a contract uses it to say "the symbolic run did not have the shape I expected" (e.g. no
         # normally returning path).  The solver "refuting" it carries no information about the code, so the obligation's run-time replay decides (see finish()).
-        r.structural = (len(hyps) == 0 and z3.is_false(goal))
+        forced = opts.pop("structural", None)          # a contract may state that `pc |- False` IS its verdict (e.g. "this path returns the stale object itself")
+        r.structural = (len(hyps) == 0 and z3.is_false(goal)) if forced is None else bool(forced)
         if opts.pop("algebra", False) and z3.is_eq(goal):
             from . import cert
             try:
